@@ -4,7 +4,7 @@ import sockgen
 
 LEAN_MODULES = ["PyAirtouch.Props.C01", "PyAirtouch.Props.C01Order"]
 LEVEL = "proof"
-MONITORS = ["c01a", "c01b", "c01c", "c02a", "c02b"]
+MONITORS = ["c01a", "c01b", "c01c", "c01d", "c02a", "c02b"]
 
 
 def _long_run(n):
@@ -19,6 +19,19 @@ def _long_run(n):
     return s
 
 
+def _reset_window():
+    """a command accepted while ANOTHER task is in the middle of resetting the connection (API reset, a frame the read loop
+    rejects, a write fault of another message): no write of this command fails, a connection exists again at once, so it
+    must be transmitted"""
+    out = []
+    for trigger in ([("reset",)], [("peer", "badcrc")], [("peer", "garbage")], [("peer", "eof")], [("failw", 1), ("send", 50, "ok", "idem")]):
+        for k in range(0, 6):
+            for pol in ("idem", "nonidem"):
+                out.append(("faults", [("net", "accept"), ("open",), ("adv", 8), ("turn", 3)] + trigger
+                            + [("turn", k), ("send", 1, "ok", pol), ("send", 2, "ok", "idem"), ("adv", 8), ("heal",)]))
+    return out
+
+
 def _nontrivial(script, r):
     return sum(1 for op in script if op[0] == "send") >= 2
 
@@ -30,12 +43,15 @@ def run(ctx, deep=False):
         "script families: outage (1..14 sends of mixed policies queued while refused, then a connection), steady (sends from "
         "several tasks while connected, connect latency 0..3 ticks), a run of 300+ sends past the 256-value packet counter, and "
         "fault scripts; real AirTouchSocket with AT4 and AT5 registries; wire bytes matched against the frame of each accepted "
-        "send; monitors wireOnlySubmitted / onceInOrderWithoutFault / deliveredWhenPossible; every run replayed block by block "
+        "send; reset-window scripts (a command accepted k = 0..5 loop passes after another task started resetting the connection); monitors "
+        "wireOnlySubmitted / onceInOrderWithoutFault / deliveredWhenPossible / noSilentLoss (every drop has a true reason; after the network heals every "
+        "accepted message has been written, has failed a write or was dropped); every run replayed block by block "
         "against the Lean model. distinct = distinct scripts; non-trivial = at least two sends")
     plan = [("outage", 150 * k), ("steady", 100 * k), ("faults", 100 * k)]
     for gen in (4, 5):
         items = sockcheck.gen_scripts(ctx.seed * 131 + gen, plan)
         items.append(("steady", _long_run(320 if not thorough else 1000)))
+        items += _reset_window()
         good = sockcheck.judge_family(ctx, "C01", items, MONITORS, gen=gen, nontrivial=_nontrivial)
         sockcheck.validate_against_model(ctx, good, "AT%d" % gen)
     ctx.assumptions += ["partial writes / the kernel send buffer are below the model (owned by asyncio's transport)"]
